@@ -770,7 +770,9 @@ _WHITESPACE_CHARS = [ord(b"\t"), ord(b" ")]
 
 
 def _parse_string(value: bytes) -> bytes:
-    value_array = bytearray(value.strip())
+    # Like git, only space, tab, CR and LF are insignificant around a value;
+    # bytes.strip() without argument would also drop VT and FF.
+    value_array = bytearray(value.strip(b" \t\r\n"))
     ret = bytearray()
     whitespace = bytearray()
     in_quotes = False
